@@ -62,6 +62,7 @@ def declare(rep):
                       "nothing orphaned below a freed slot; fresh slots end linked exactly once")
     rep.rule("R16.2", "new_node: arena grows only after free.pop() = None; a recycled slot has prefix, value, left, right overwritten")
     rep.rule("R16.3", "clear: arena.clear + free.clear + fresh root always together")
+    rep.rule("R16.5", "(shared with C19) Clone derived over all fields, or clone/clone_from take table, free list and counter from the source")
     rep.rule("R16.4", "no allocation is reachable from _retain (it reads links of slots it has just freed)")
 
 
@@ -136,6 +137,9 @@ def run_config(ctx, rep, cfg, F):
                 rep.bad("R16.1", short, "uninterpreted", "MIR shows a write of Node::left/right or PrefixMap::free in %s but no "
                         "analysed path goes through it" % short, kind="unrecognised", config=cfg)
         rep.floor("functions writing links or the free list (%s)" % cfg, len(writers), 6)
+        # R16.5 clone / clone_from copy arena and free list together (rule of C19, shared)
+        from . import c19
+        c19.check_clone(ctx, rep, cfg, F, rule="R16.5")
         # R16.4: call-graph reachability from _retain
         reach = reachable(F, "PrefixMap::_retain")
         allocs = {"PrefixMap::new_node", "PrefixMap::insert", "PrefixMap::clear"}
